@@ -25,6 +25,12 @@ T = {
          "All nine schemes are evaluated by the real code on seeded rectangular (non-square included) and Delaunay meshes with log-uniform coefficients and adapt images of dynamic range up to 1e4; symmetry (1e-10), PSD for all, PD + successful Cholesky for the schemes the statement names, the closed quadratic forms of the constant and adaptive-brightness schemes on random and adversarial vectors against an independently computed adjacency, and the block-diagonal layout (zero block for unregularised objects, order under permutations, reduced matrix) are decided per case. Exploration.", "DESIGN.md 3/C07"),
  "C08": ("runtime monitoring: definitional NumPy oracle on unmasked pixels next to the real FitImaging, metamorphic garbage-invariance in masked pixels, evidence terms recomputed by slogdet on the regularised index set; icontract contracts on fit_util",
          "Seeded fits (signed data of large dynamic range, background sky, slim and garbage-carrying masked-native mode, with and without inversions whose objects are fully / partially / not regularised) are evaluated by the real code; every scalar statistic, derived map, evidence term, the evidence composition and the figure-of-merit selection are compared with their definitions on values[~mask], and two native datasets differing only in masked pixels must give bit-identical statistics. Exploration.", "DESIGN.md 3/C08"),
+ "C02": ("runtime monitoring: closed-formula reference model next to the real geometry / mask-constructor code on seeded shapes, scales, origins and near-boundary query points; icontract contracts on the five mask_2d_*_from constructors and grid_2d_slim_via_mask_from",
+         "Seeded geometries over all four shape-parity classes (square, 1xN and tiny shapes forced), anisotropic scales, origins up to +-100 pixels with unequal components: every pixel centre, extent, scalar and grid index conversion (3-4 interior, near-edge and near-corner points per pixel, 1e-8 px outside the tie band), both continuous compositions, and all five shape-based constructors with critical radii placed 1e-8..1e-5 either side of a pixel's radius are compared with the statement's formulas; tie-band points/pixels are counted as don't-care. Exploration.", "DESIGN.md 3/C02"),
+ "C11": ("runtime monitoring: trace checkers over recorded events - byte fingerprints of caller-owned inputs at the exit of ~400 wrapped public entry points, a cached-property trace (compute / hit / inherited), baseline-vs-history comparison of every public quantity, derived-object consistency, default-object fingerprints, repetition with perturbed global RNG",
+         "Seeded object graphs (inversion -> mappers -> grids -> mask, fit -> dataset, valued mapper -> mapper, both formalisms, module defaults) are read in random access histories with repetition; every read must equal the value the quantity has when read first on a fresh equal graph, every cached-property hit must return the bytes recorded at compute time, inherited cache entries must equal the object's own computation, every registered caller-owned array / settings / preloads object must keep its fingerprint across every wrapped call, derived structures and datasets (arithmetic, slicing, copy, invert, apply_mask, trimming, over-sampling, noise scaling) must report quantities consistent with their own contents with and without prior reads on the source, shared default objects must not change, and seeded simulations must not depend on the global RNG. One known finding (MapperValued.values_masked) is listed. Exploration over bounded histories.", "DESIGN.md 3/C11"),
+ "C14": ("runtime monitoring: all shape combinations in a bound executed through the real resize / pad / trim / apply_mask / zoom code with unique-valued arrays and a coordinate-attachment oracle; icontract contracts on resized_array_2d_from and the resize/pad/trim methods",
+         "Every (H,W,H',W') in [1,7]^4 (quick) / [1,10]^4 (thorough), every (H,W) x odd kernels {1,3,5,7}^2, automatically padded datasets and zoom windows are run with unique-valued arrays: resized arrays/masks must be the centred crop/embedding (either nearest placement on a parity change, the same for array and mask), pad->trim and grow->shrink must be identities, with parity preserved every surviving value must keep its scaled coordinate (computed by the C02 formula on the result's own geometry and by Grid2D.from_mask), (coordinate, data, noise) triples of automatically padded datasets must be unchanged, and one integer offset must map every unmasked pixel into the zoom window. Shapes enumerated, masks/values sampled. Exploration.", "DESIGN.md 3/C14"),
  "C12": ("runtime monitoring: metamorphic comparison of two whole executions (origin o vs o+d) over every listed entry point, classified per entry point",
          "The same world (mask bits, scales, values, identical random draws relative to the origin) is built at o and at o+d with tiny, order-of-scale, large (100 pixel scales), integer- and half-integer-pixel translations; ~45 public results per pair (grids, derived masks, zoom, padding, over-sampling, border relocation, overlay and Hilbert meshes, masked / noise-scaled / over-sampled / trimmed / simulated datasets, S/N-limited noise maps, pixel indexes of translated points, mapper tables and matrices) must translate by exactly d or stay unchanged; floating-point ties (overlay points on pixel boundaries, degenerate triangulations) are detected independently and counted as don't-care. Exploration.", "DESIGN.md 3/C12"),
  "C13": ("runtime monitoring: the real TransformerDFT / transformer_util / InversionInterferometerMapping executed next to a dense reference operator exp(-2 pi i (x u + y v)); adjoint inner-product identity",
